@@ -5,6 +5,18 @@ from checks import scope_common
 
 LIB = "pub fn a(x) { x }\npub fn c() { 1 }\nfn p() { 2 }\npub type A { A(a: Int) C }\npub const k = 1\npub type T { W }\ntype P { Q }\n"
 EXTRA_SEEDS = [
+    # labelled parameters called in every shape, well- and ill-typed (surplus arguments, labels after positionals, pipes)
+    'fn labelled(label1 a: Int, label2 b: String) { a }\nfn u1() { 1 |> labelled(label1: 1, label2: "a") }\nfn u2() { labelled(1, "a", label1: 3) }\n'
+    'fn u3() { labelled(label2: "x", label1: 2) }\nfn u4() { labelled(label2: "x") |> labelled(1) }\n',
+    # types that do not exist in Gleam (occurs check): infinite types constrained once and twice
+    'fn flat(l) { case l { [] -> [] [x, ..r] -> [flat(x), ..flat(r)] } }\nfn selfapp(a) { a(a) a(a) }\nfn once(a) { a(a) }\n',
+    # self-referential and mutually recursive aliases, recursive types
+    'type A = A\ntype B = List(B)\ntype C = D\ntype D = C\ntype L { Cons(Int, L) Nil2 }\nfn f(x: A, y: B, z: C) { #(x, y, z) }\nfn g(l: L) { case l { Cons(h, t) -> g(t) Nil2 -> 0 } }\n',
+    # functions calling each other across two modules (with its own library module)
+    ('import m2\npub fn ping(n) { m2.pong(n) }\npub fn top() { ping(1) }\n', 'import m1\npub fn pong(n) { m1.ping(n) }\npub type T { W }\n'),
+    ('import m2.{pong}\npub fn ping(n) { pong(n) }\n', 'import m1.{ping}\npub fn pong(n) { ping(n) }\n'),
+    # non-ASCII text in comments, strings and broken places
+    '//// модуль 日本語\n/// док 💣\npub fn h() { "こんにちは" <> "é" } // конец\nconst k = "กขค"\nfn i() { let s = "💣💣" s }\n',
     # mutual recursion / recursion groups (the functions of one group are inferred together)
     'import m2\npub fn is_even(n) { case n { 0 -> True _ -> is_odd(n - 1) } }\npub fn is_odd(n) { case n { 0 -> False _ -> is_even(n - 1) } }\nfn top() { is_even(m2.c()) }\n',
     'pub fn ping(n) { case n { 0 -> 0 _ -> pong(n - 1) } }\nfn pong(n) { ping(n) + 1 }\n',
@@ -36,7 +48,10 @@ def seeds(out, tier, seed, n_gen):
         l = [t["t"] for t in c["out"] if t["r"] not in ("open", "close") and t["t"]]
         res.append({"files": [{"name": "m1", "lex": l}, {"name": "m2", "lex": liblex}]})
     for t in EXTRA_SEEDS:
-        res.append({"files": [{"name": "m1", "lex": lex(t)}, {"name": "m2", "lex": liblex}]})
+        if isinstance(t, tuple):
+            res.append({"files": [{"name": "m1", "lex": lex(t[0])}, {"name": "m2", "lex": lex(t[1])}]})
+        else:
+            res.append({"files": [{"name": "m1", "lex": lex(t)}, {"name": "m2", "lex": liblex}]})
     for f in sorted(glob.glob(os.path.join(vlib.VERIF, "corpus", "**", "*.gleam"), recursive=True)):
         t = open(f, encoding="utf-8").read()
         l = lex(t)
@@ -45,6 +60,17 @@ def seeds(out, tier, seed, n_gen):
         elif len(l) >= 150:
             k = rnd.randrange(0, len(l) - 140)
             res.append({"files": [{"name": "m1", "lex": l[k:k + 140]}, {"name": "m2", "lex": liblex}]})
+    return res
+
+
+def extra_truncations():
+    """every lexeme-level truncation of every hand-written seed (end-of-input errors in non-ASCII and odd programs)"""
+    liblex = lex(LIB)
+    res = []
+    for t in EXTRA_SEEDS:
+        m1, m2 = (lex(t[0]), lex(t[1])) if isinstance(t, tuple) else (lex(t), liblex)
+        for i in range(1, len(m1)):
+            res.append({"files": [{"name": "m1", "lex": m1[:i]}, {"name": "m2", "lex": m2}], "steps": 1})
     return res
 
 
@@ -72,7 +98,7 @@ def damaged_workspaces(out, tier, seed):
         for st in h["hist"][1:]:
             if st["op"]["k"] != "query":
                 multi.append({"files": st["files"], "steps": 2})
-    return ws, multi, allseeds
+    return ws, multi + extra_truncations(), allseeds
 
 
 def histories(out, tier, seed, allseeds, n):
